@@ -728,7 +728,7 @@ class ExprMixin:
             r = self.lib_slice(base, sl, path, node)
             if r is not None:
                 return r
-            raise Unsupported("slice with step", node)
+            raise Unsupported(f"slice with step of {base}", node)
         if isinstance(base, sv.SList):
             lo = self.eval(sl.lower, path).e if sl.lower is not None else z3.IntVal(0)
             hi = self.eval(sl.upper, path).e if sl.upper is not None else base.n
